@@ -458,6 +458,70 @@ static int t_flags (int fam) {
 	return 0;
 }
 
+/* ---------------------------------------------------------------- eintrconn
+ * A blocking connect whose native connect () is interrupted by a handled signal AFTER the handshake was started, and is
+ * re-issued while the handshake is still running: POSIX answers the retry with EALREADY.  The caller must not see any of
+ * this: the call waits and returns TRUE when the connection is made.  The handshake is kept pending by a listener whose
+ * accept queue is full (the SYN is dropped and retransmitted about one second later, when a helper has drained the queue).
+ * The interruption is injected by the link-time wrapper of connect () (the real call is made first, then EINTR is
+ * reported), everything else is the real kernel. */
+static volatile int conn_eintr_armed, conn_retry_errno = -2;
+int __real_connect (int, const struct sockaddr *, socklen_t);
+int __wrap_connect (int fd, const struct sockaddr *sa, socklen_t len) {
+	int r;
+	if (conn_eintr_armed == 1) {
+		conn_eintr_armed = 2;
+		r = __real_connect (fd, sa, len);
+		if (r == 0) return 0;                                   /* connected at once: nothing to interrupt */
+		errno = EINTR;
+		return -1;
+	}
+	r = __real_connect (fd, sa, len);
+	if (conn_eintr_armed == 2) { conn_eintr_armed = 3; conn_retry_errno = r == 0 ? 0 : errno; }
+	return r;
+}
+struct drain { PSocket *l; int n; };
+static void *drain_later (void *arg) {
+	struct drain *d = arg;
+	usleep (300000);
+	for (int i = 0; i < d->n; i++) { PSocket *s = p_socket_accept (d->l, NULL); if (s) p_socket_free (s); }
+	return NULL;
+}
+static int t_eintrconn (int fam) {
+	int port; PError *err = NULL;
+	PSocket *l = listener (fam, 1, &port);
+	PSocketAddress *a = p_socket_address_new (loop_addr (fam), (puint16) port);
+	PSocket *fill[3]; int nf = 0;
+	/* fill the accept queue (backlog 1: two established connections wait, further SYNs are dropped) */
+	for (int i = 0; i < 3; i++) {
+		PSocket *f = p_socket_new (pfam (fam), P_SOCKET_TYPE_STREAM, P_SOCKET_PROTOCOL_TCP, &err);
+		if (!f) FAILF ("socket: %s", p_error_get_message (err));
+		p_socket_set_timeout (f, 200);
+		if (p_socket_connect (f, a, NULL)) fill[nf++] = f; else { p_socket_free (f); break; }
+	}
+	if (nf == 3) { printf ("ok eintrconn fam=%d (the accept queue did not fill up: nothing to judge)\n", fam); return 0; }
+	PSocket *c = p_socket_new (pfam (fam), P_SOCKET_TYPE_STREAM, P_SOCKET_PROTOCOL_TCP, &err);
+	if (!c) FAILF ("socket: %s", p_error_get_message (err));
+	p_socket_set_timeout (c, 15000);
+	struct drain d = { l, nf + 1 }; pthread_t th;
+	p_socket_set_blocking (l, TRUE); p_socket_set_timeout (l, 5000);
+	pthread_create (&th, NULL, drain_later, &d);
+	double t0 = now_ms ();
+	conn_eintr_armed = 1;
+	pboolean ok = p_socket_connect (c, a, &err);
+	double dt = now_ms () - t0;
+	conn_eintr_armed = 0;
+	if (!ok) {
+		int code = p_error_get_code (err), nat = p_error_get_native_code (err);
+		if (code == P_ERROR_IO_TIMED_OUT) { printf ("ok eintrconn fam=%d (handshake not completed within 15 s: nothing to judge)\n", fam); return 0; }
+		FAILF ("blocking connect interrupted once by a handled signal (native connect: EINTR, retry answered errno %d while the handshake was running) failed after %.0f ms with code=%d native=%d (%s) although the connection was made", conn_retry_errno, dt, code, nat, p_error_get_message (err));
+	}
+	if (!p_socket_is_connected (c)) FAILF ("connect returned TRUE but is_connected is FALSE");
+	pthread_join (th, NULL);
+	printf ("ok eintrconn fam=%d retry_errno=%d waited_ms=%.0f\n", fam, conn_retry_errno, dt);
+	return 0;
+}
+
 /* ---------------------------------------------------------------- gone */
 static int t_gone (int fam) {
 	int port; PError *err = NULL;
@@ -496,6 +560,7 @@ int main (int argc, char **argv) {
 	if (!strcmp (argv[1], "sigdata") && argc == 4) return t_sigdata (atoi (argv[2]), atoi (argv[3]));
 	if (!strcmp (argv[1], "flags") && argc == 3) return t_flags (atoi (argv[2]));
 	if (!strcmp (argv[1], "gone") && argc == 3) return t_gone (atoi (argv[2]));
+	if (!strcmp (argv[1], "eintrconn") && argc == 3) return t_eintrconn (atoi (argv[2]));
 	if (!strcmp (argv[1], "udpq") && argc == 4) { rs = strtoull (argv[2], NULL, 10) + 7; return t_udpq (strtoull (argv[2], NULL, 10), atoi (argv[3])); }
 	return 2;
 }
